@@ -57,7 +57,10 @@ def build(r):
     if tag == "dictinc":
         return V.DictIncompleteValue(dict, [V.KVPair(build(k), build(v), bool(m), bool(req)) for k, v, m, req in r[1]])
     if tag == "td":
-        return V.TypedDictValue({k: V.TypedDictEntry(build(t), required=bool(req)) for k, t, req in r[1]})
+        # items [key, type, required, readonly?]; optional r[2] = extra-items type (None: open), r[3] = extra items readonly
+        items = {it[0]: V.TypedDictEntry(build(it[1]), required=bool(it[2]), readonly=bool(it[3]) if len(it) > 3 else False) for it in r[1]}
+        extra = build(r[2]) if len(r) > 2 and r[2] is not None else None
+        return V.TypedDictValue(items, extra_keys=extra, extra_keys_readonly=bool(r[3]) if len(r) > 3 else False)
     if tag == "sub":
         return V.SubclassValue(V.TypedValue(eval(r[1], NS)), exactly=bool(r[2]))
     if tag == "union":
@@ -152,6 +155,10 @@ def values(any_ok=False, typevars=False, callables=True, max_leaves=8):
                 lambda ps: ("dictinc", [[k, v, m, r] for k, v, m, r in ps])),
             st.lists(st.tuples(st.sampled_from(["a", "b", "c"]), ch, st.booleans()), max_size=3,
                      unique_by=lambda t: t[0]).map(lambda items: ("td", [[k, t, r] for k, t, r in items])),
+            st.tuples(st.lists(st.tuples(st.sampled_from(["a", "b", "c"]), ch, st.booleans(), st.booleans()), max_size=3,
+                               unique_by=lambda t: t[0]),
+                      st.one_of(st.none(), st.none(), ch), st.booleans()).map(
+                lambda t: ("td", [[k, ty, r, ro] for k, ty, r, ro in t[0]], t[1], t[2])),
             st.lists(ch, min_size=2, max_size=3).map(lambda xs: ("union", xs)),
             st.lists(ch, min_size=1, max_size=3).map(lambda xs: ("unite", xs)),
             st.tuples(ch, st.lists(st.sampled_from(["m", "n", 1]), min_size=1, max_size=2)).map(
